@@ -25,10 +25,12 @@ N_PROGRAMS_BY_PROP = {"C15": {"quick": 5, "thorough": 60}}
 # ------------------------------------------------- inputs: paths and filters
 
 def _type_display(raw):
-    lt = raw.find("<")
-    head = raw if lt < 0 else raw[:lt]
-    k = head.rfind("::")
-    return raw if k < 0 else raw[k + 2:]
+    """Runner.tla's TypeDisplay: leading module components (plain identifiers followed by ::) removed."""
+    while True:
+        k = raw.find("::")
+        if k <= 0 or not all(c.isalnum() or c == "_" for c in raw[:k]):
+            return raw
+        raw = raw[k + 2:]
 
 
 def _parent_display(prog, raw_path):
